@@ -54,6 +54,26 @@ CHECKS = {
    "Every source of the C02 spaces that the real parser accepts (all symbol strings of the tier's alphabets/bounds; derivation sets D0-D3 and the word menu in one-line, tight and multi-line layouts, each also with multi-byte words) is walked with a typed position checker: every documented position field must spell its token in the source, Pos() <= End(), both inside the source, non-empty nodes have non-zero End(), children inside parents, siblings increasing, adjacent word parts touch, and for words without substitutions source[Pos:End) equals the printed node.",
    "Intrinsic to (source, AST); aliases and line continuations are excluded by the property; containment is not demanded for nodes that carry a here-document; Comment.End excluded.",
    "DESIGN.md §6 C04"),
+ "C01": ("model_checking",
+   "bounded-exhaustive enumeration of sources × source kinds × alias tables × GODEBUG settings in crash-isolated worker processes",
+   "Every symbol string of the tier's alphabets/bounds and every character string of ≤ 5 (quick) / 6 (thorough) characters over the 14 significant shell characters is parsed by ParseCommands and ParseCommand from a string, a []byte, a one-byte io.Reader, a bufio.Reader and a custom RuneScanner, the shorter ones also under 7 adversarial alias tables, all under GODEBUG=panicnil=0 and =1 (≈ 5·10^7 calls in the quick tier). Each case runs in a GOMAXPROCS=1 worker subprocess that announces the case first, so a crash from a background goroutine, the runtime's deadlock abort or a stalled worker is attributed to it; the result must be commands and/or an error.",
+   "Free-running: one OS-chosen schedule per case (all schedules are C06's subject); a hang is detected by the Go runtime's deadlock detector or a 120 s no-progress watchdog; unbounded random programs are not explored.",
+   "DESIGN.md §6 C01"),
+ "C05": ("model_checking",
+   "bounded-exhaustive enumeration of accepted programs × all 256 printer configurations with a metamorphic round-trip oracle",
+   "Every program the parser accepts among all strings of ≤ 4 (quick) / 5 (thorough) symbols over a 32-symbol alphabet and the derivation sets D0-D2 (thorough: D3) in one-line and multi-line layout is printed under all 256 Config combinations; each distinct output is parsed again and must have the same semantic skeleton (and-or lists with async flag, pipelines, commands, words and parts, redirections, here-document bodies byte for byte).",
+   "The original parse is the oracle; `;`, newline and no separator are identified; programs outside the generated sets are not explored.",
+   "DESIGN.md §6 C05"),
+ "C18": ("model_checking",
+   "bounded-exhaustive enumeration of programs × 256 configurations (idempotence, purity) and of all single write-fault positions",
+   "For the programs of C05 under all 256 Configs: printing the re-parsed output gives identical bytes, two prints of one tree are equal, and a reflection dump of every field of the tree (positions, Sep/SepPos) is identical before and after Fprint. Writer faults: for every program and 3 Configs a writer that accepts k bytes and then fails, for every k below the output length (and around bufio's 4096-byte buffer), must make Fprint return a non-nil error, without panic and with the tree unchanged.",
+   "The deep comparison runs after every 4th configuration and after the last; outputs that do not re-parse are C05's subject.",
+   "DESIGN.md §6 C18"),
+ "C19": ("model_checking",
+   "bounded-exhaustive enumeration of inputs per entry point in crash-isolated worker processes",
+   "Every AST the parser returns for the C01 corpora is measured (Pos/End of every node), printed under 16 (quick) / 256 Configs and every word in it expanded under all 6 modes; every token string of ≤ 4 / 5 tokens over a 20-token alphabet goes through Eval, every pattern of ≤ 4 / 5 characters over 12 pattern characters through Match (6 subjects, mode combinations) and over 9 characters through Glob; all 2^14 Option values; nesting depths 1-40 × 12 indentation styles; all under GODEBUG=panicnil=0 and =1. No panic, no process death, only documented error types.",
+   "Oracle is 'terminates without panic, documented error types'; values are C11-C16's subject.",
+   "DESIGN.md §6 C19"),
 }
 
 def main():
